@@ -356,4 +356,36 @@ theorem duplicate_copy_unread :
   revert this
   decide
 
+/-! ### (10) every chunk POSITION of a file and every chunk ID is looked up for itself -/
+
+/-- The pack of the chunk at EVERY position `i` of a file's content list — first, last or inner — joins the packs `check --read-data`
+reads, and no chunk is skipped because of another chunk looked up before (the look-up `lk .data ids[i]` of that very id decides;
+there is no "seen" state in `nodePacks`).  Positional form of `check_read_set_covers_all_content`. -/
+theorem every_chunk_position_is_read (lk : Lookup) (n : Node) (ids : List Id) (i : Nat) (hi : i < ids.length) (e : Entry)
+    (hk : n.kind = .file) (hc : n.content = some ids) (he : lk .data ids[i] = some e) : e.pack ∈ nodePacks lk n :=
+  content_pack_in_nodePacks hk hc (List.getElem_mem hi) he
+
+/-- NOT the code (seeded change C05-9): only the packs of the first and of the last chunk of a file are registered. -/
+def endsPacks (lk : Lookup) (ids : List Id) : List Id :=
+  (ids.head?.toList ++ ids.getLast?.toList).filterMap (fun d => (lk .data d).map (·.pack))
+
+/-- NOT the code (seeded change C05-8): a chunk whose id prefix `pre d` (`Id::as_u32`, the first four bytes) was met before is
+not looked up. -/
+def prefixSkipPacks (pre : Id → Nat) (lk : Lookup) : List Nat → List Id → List Id
+  | _, [] => []
+  | seen, d :: l =>
+    if pre d ∈ seen then prefixSkipPacks pre lk seen l
+    else ((lk .data d).map (·.pack)).toList ++ prefixSkipPacks pre lk (pre d :: seen) l
+
+/-- look-up of the witnesses: data blob `d` lives in pack `10 * d` -/
+def lkTimes10 : Lookup := fun _ d => some { pack := 10 * d, offset := 0, length := 1, ulen := none }
+
+/-- Witnesses, replayed on the real code by the generator's `build_inner_chunks` / `build_prefix_pair` repositories: a file of chunks
+[1, 2, 3] in packs 10, 20, 30 — the code's `nodePacks` holds pack 20, the first/last shortcut misses it; two one-chunk contents 1 and 3
+whose ids share their prefix (`pre d = d % 2`) — `nodePacks` holds pack 30, the prefix-keyed "seen" set skips it. -/
+theorem shortcuts_miss_a_pack :
+    (20 ∈ nodePacks lkTimes10 (metaNode [1, 2, 3] 0 1 0) ∧ 20 ∉ endsPacks lkTimes10 [1, 2, 3]) ∧
+    (30 ∈ nodePacks lkTimes10 (metaNode [1, 3] 0 1 0) ∧ 30 ∉ prefixSkipPacks (· % 2) lkTimes10 [] [1, 3]) := by
+  decide
+
 end Rustic.Props.C05
